@@ -23,10 +23,11 @@ class Dir(dict):
 
 
 class File:
-    __slots__ = ('chunks',)
+    __slots__ = ('chunks', 'mtime')
 
     def __init__(self):
         self.chunks = []
+        self.mtime = 0
 
 
 class FS:
@@ -36,6 +37,8 @@ class FS:
         self.cwd = cwd
         self.hook = None            # called as hook(name, args) before the effect of every syscall
         self.nsys = 0
+        self.buffered = False       # True: written data stays in the (userspace) buffer of the file object until flush/close
+        self.clock = 0              # logical time: advanced by every mutating syscall (mtime/ctime of the touched inode)
         node = self.root
         for c in [c for c in cwd.split('/') if c]:
             node[c] = Dir()
@@ -47,6 +50,8 @@ class FS:
         if self.hook is not None:
             self.hook(name, a)
         self.log.append((name,) + a)
+        if name in MUTATING:
+            self.clock += 1
 
     def _split(self, p):
         p = os.fspath(p)
@@ -129,7 +134,7 @@ class FS:
         n = self._get(p)
         if n is None:
             raise FileNotFoundError(errno.ENOENT, 'No such file or directory', p)
-        return Stat(n)
+        return Stat(n, self)
 
     def scandir(self, p):
         self.sys('scandir', p)
@@ -153,6 +158,7 @@ class FS:
                 x = d[n] = File()
             else:
                 x.chunks = []
+            x.mtime = self.clock
             return FakeFile(self, p, mode, x)
         self.sys('open', p)
         x = self._get(p)
@@ -172,12 +178,25 @@ class FS:
 
 
 class Stat:
-    def __init__(self, node):
+    """os.stat_result of the model: inode identity, size in chunks, modification time on the model's logical clock"""
+
+    def __init__(self, node, fs=None):
         self.st_mode = (statmod.S_IFDIR if isinstance(node, Dir) else statmod.S_IFREG) | 0o755
         self.st_ino = id(node)
         self.st_dev = 1
+        self.st_nlink = 1
+        self.st_uid = self.st_gid = 0
         self.st_size = 0 if isinstance(node, Dir) else len(node.chunks)
-        self.st_mtime = self.st_atime = self.st_ctime = 0
+        t = getattr(node, 'mtime', 0)
+        self.st_mtime = self.st_atime = self.st_ctime = float(t)
+        self.st_mtime_ns = self.st_atime_ns = self.st_ctime_ns = int(t) * 1000000000
+
+    def __iter__(self):
+        return iter((self.st_mode, self.st_ino, self.st_dev, self.st_nlink, self.st_uid, self.st_gid, self.st_size,
+                     int(self.st_atime), int(self.st_mtime), int(self.st_ctime)))
+
+    def __getitem__(self, i):
+        return tuple(self)[i]
 
 
 class Entry:
@@ -229,12 +248,17 @@ class ScanIt:
 
 
 class FakeFile:
-    """unbuffered model file object: each write() is one write syscall appending a chunk to the inode"""
+    """model file object.  Unbuffered (fs.buffered False: what io does for data larger than its buffer): each write()
+    is one write syscall appending a chunk to the inode.  Buffered (fs.buffered True: small data): write() only
+    fills the userspace buffer; the write syscalls are issued by flush()/close(), so a process that dies - or
+    renames the file - before close() leaves the data out of the file."""
 
     def __init__(self, fs, p, mode, inode):
         self.fs, self.p, self.mode, self.inode = fs, p, mode, inode
         self.closed = False
         self.name = p
+        self.pending = []
+        self.buffered = fs.buffered
 
     def __enter__(self):
         return self
@@ -242,15 +266,27 @@ class FakeFile:
     def __exit__(self, *a):
         self.close()
 
+    def _sync(self):
+        while self.pending:
+            self.fs.sys('write', self.p)
+            self.inode.chunks.append(self.pending.pop(0))
+            self.inode.mtime = self.fs.clock
+
     def close(self):
         if not self.closed:
+            if 'w' in self.mode:
+                self._sync()
             self.closed = True
             if 'w' in self.mode:
                 self.fs.sys('close', self.p)
 
     def write(self, chunk):
+        if self.buffered:
+            self.pending.append(chunk)
+            return 1
         self.fs.sys('write', self.p)
         self.inode.chunks.append(chunk)
+        self.inode.mtime = self.fs.clock
         return 1
 
     def read_chunks(self):
@@ -262,7 +298,8 @@ class FakeFile:
         return cs
 
     def flush(self):
-        pass
+        if 'w' in self.mode:
+            self._sync()
 
 
 def rebind_module(mod, overrides):
@@ -468,7 +505,7 @@ class Installer:
 
 _MISSING = object()
 STUBS = [
-    'file system: in-memory POSIX model at system-call level (mkdir/rmdir/unlink/rename/open/write/read/close/scandir/stat, POSIX error rules); real os.makedirs/renames/removedirs/walk, posixpath, genericpath, shutil.rmtree (path-based form), fnmatch and pox.mkdir/rmtree/walk run re-bound over it',
+    'file system: in-memory POSIX model at system-call level (mkdir/rmdir/unlink/rename/open/write/read/close/scandir/stat with a logical mtime clock, POSIX error rules; file objects unbuffered or - C13/C14, symbolic choice - buffered until flush/close); real os.makedirs/renames/removedirs/walk, posixpath, genericpath, shutil.rmtree (path-based form), fnmatch and pox.mkdir/rmtree/walk run re-bound over it',
     'shutil.copytree / copy2: hand-written mirrors over the model syscalls',
     'dill / json / klepto._pickle on files: lossless two-chunk serializer (value snapshot; load fails unless exactly one complete record is present; Unencodable values raise TypeError at dump)',
     'random() for temporary names: deterministic distinct values (temp-name collisions assumed away)',
